@@ -34,6 +34,10 @@ locale_t __real_duplocale(locale_t l);
 void __real_freelocale(locale_t l);
 locale_t __real_uselocale(locale_t l);
 double __real_strtod(const char *s, char **e);
+void *__real_malloc(size_t n);
+void *__real_calloc(size_t a, size_t b);
+void *__real_realloc(void *p, size_t n);
+char *__real_strdup(const char *s);
 
 static locale_t user_obj; /* the caller's per-thread locale object, if any */
 static int user_static;    /* user_obj is glibc's static C-locale object */
@@ -44,6 +48,7 @@ static struct wrapstate
 	int armed;
 	int fail_dup; /* 0 no, 1 ENOMEM, 2 other errno */
 	int fail_new;
+	int alloc_k; /* > 0: the k-th allocation the library makes in the armed window fails (injection m<k>) */
 	char log[2048];
 	size_t n;
 	locale_t objs[16];
@@ -208,10 +213,57 @@ double __wrap_strtod(const char *s, char **e)
 	return __real_strtod(s, e);
 }
 
+/* allocation-failure injection: the library's own malloc / calloc / realloc / strdup calls (glibc's internal ones,
+ * e.g. inside newlocale, are not affected by --wrap) */
+static int alloc_fails(void)
+{
+	if (!wr.armed || wr.alloc_k <= 0)
+		return 0;
+	return --wr.alloc_k == 0;
+}
+void *__wrap_malloc(size_t n)
+{
+	if (alloc_fails())
+	{
+		errno = ENOMEM;
+		return NULL;
+	}
+	return __real_malloc(n);
+}
+void *__wrap_calloc(size_t a, size_t b)
+{
+	if (alloc_fails())
+	{
+		errno = ENOMEM;
+		return NULL;
+	}
+	return __real_calloc(a, b);
+}
+void *__wrap_realloc(void *p, size_t n)
+{
+	if (alloc_fails())
+	{
+		errno = ENOMEM;
+		return NULL;
+	}
+	return __real_realloc(p, n);
+}
+char *__wrap_strdup(const char *s)
+{
+	if (alloc_fails())
+	{
+		errno = ENOMEM;
+		return NULL;
+	}
+	return __real_strdup(s);
+}
+
 static void arm(const char *inj)
 {
 	memset(&wr, 0, sizeof(wr));
 	wr.next = 'a';
+	if (inj[0] == 'm')
+		wr.alloc_k = atoi(inj + 1);
 	wr.fail_dup = strchr(inj, 'd') ? 1 : strchr(inj, 'o') ? 2 : 0;
 	wr.fail_new = strchr(inj, 'n') ? 1 : 0;
 	wr.armed = 1;
@@ -377,7 +429,9 @@ static void do_px(void)
 	disarm_and_collect();
 	char err[32];
 	snprintf(err, sizeof err, "%.*s", (int)strcspn(got, "@"), got);
-	print_line(&s, !strcmp(got, ref), got, ref, "err", err);
+	/* under an allocation-failure injection the outcome (memory error, or unaffected when the call makes fewer
+	 * allocations) is not what this property is about: only the locale state is */
+	print_line(&s, !strcmp(got, ref), got, ref, "err", W[1][0] == 'm' ? "*" : err);
 	free(got);
 	free(ref);
 	free(data);
